@@ -1098,11 +1098,18 @@ void process_option_line(const std::string &config_line, const char *filename,
    {
       auto       this_line_number = cpd.line_number;
       const auto &include_path    = args[1];
+      static int include_depth    = 0;
 
       if (include_path.empty())
       {
          OptionWarning w{ filename };
          w("include: path cannot be empty");
+      }
+      else if (include_depth >= 16)
+      {
+         // a file that (directly or not) includes itself never ends
+         OptionWarning w{ filename };
+         w("include: '%s' is nested too deeply (include cycle?)", include_path.c_str());
       }
       else if (is_path_relative(include_path))
       {
@@ -1110,12 +1117,16 @@ void process_option_line(const std::string &config_line, const char *filename,
          UncText ut = std::string{ filename };
          ut.resize(static_cast<unsigned>(path_dirname_len(filename)));
          ut.append(include_path);
+         ++include_depth;
          UNUSED(load_option_file(ut.c_str(), compat_level));
+         --include_depth;
       }
       else
       {
          // include is an absolute path
+         ++include_depth;
          UNUSED(load_option_file(include_path.c_str(), compat_level));
+         --include_depth;
       }
       cpd.line_number = this_line_number;
    }
